@@ -711,6 +711,7 @@ func (c *Ctx) akaRules(r *Report, prefix, mode string) {
 	if mode == "roundtrip" || mode == "stability" || mode == "decode" {
 		return
 	}
+	c.setterTotality(r, prefix)
 	// C14: setter size rules
 	ruleS := prefix + "aka.setter-sizes"
 	r.Rule(ruleS, "SetAttr refuses wrong sizes: AT_RAND, AT_AUTN, AT_MAC exactly 16 octets, AT_KDF exactly 2, AT_RES 4..16 octets; reserved = 0 for fixed attributes, = 8*len for AT_RES/AT_KDF_INPUT", 6)
